@@ -52,7 +52,7 @@ def py_oracle(ops, outs):
         res, tx, ev, st, neg, sec, q = m.groups()
         if st == "BAD":
             fails.append((i, "state-predicates-not-exclusive"))
-        if op == "connect" and res == "rc 0":
+        if op.split(" ")[0] == "connect" and res == "rc 0":
             attempt = True
             disc_since_connect = 0
             connected_since = 0
